@@ -148,7 +148,7 @@ func c09Run(c *fw.Ctx) {
 			rt := []string{"idp-refresh-token", ""}[x.Choose("refresh-token", 2)]
 			// (the last: the listed address / domain with its 's' written as U+017F, which Unicode case folding —
 			// but not lower-casing — equates with 's')
-			em := []string{"bob@corp.test", "mallory@other.test", "bob@evilcorp.test", "notbob@corp.test", "bob@corp.te\u017ft"}[x.Choose("email", 5)]
+			em := []string{"bob@corp.test", "mallory@other.test", "bob@evilcorp.test", "notbob@corp.test", "bob@corp.te\u017ft", "bob@corp.test@evil.test"}[x.Choose("email", 6)]
 			pick := func(b int) time.Time {
 				if b == 0 {
 					return future
@@ -420,6 +420,22 @@ func c09Run(c *fw.Ctx) {
 			panic(explore.HarnessError{Msg: fmt.Sprintf("C09: /start did not start a flow (status %d)", r.Status)})
 		}
 		states = append(states, st{"state-of-a-real-start", realState, realNonce, in})
+		// near misses of the real nonce: same length, differing only in the last character / in the second half
+		flip := func(c byte) byte {
+			if c == '0' {
+				return '1'
+			}
+			return '0'
+		}
+		if n := len(realNonce); n >= 2 {
+			last := realNonce[:n-1] + string(flip(realNonce[n-1]))
+			half := realNonce[:n/2] + strings.Repeat("0", n-n/2)
+			if half == realNonce {
+				half = realNonce[:n/2] + strings.Repeat("1", n-n/2)
+			}
+			states = append(states, st{"real-nonce-with-last-character-changed", b64(last + ":" + in), last, in}, st{"real-nonce-with-second-half-changed", b64(half + ":" + in), half, in},
+				st{"first-half-of-the-real-nonce", b64(realNonce[:n/2] + ":" + in), realNonce[:n/2], in})
+		}
 		csrfs = append(csrfs, realCookie)
 	}
 	drive(c, "callback", -1, func(x *explore.Exec, owned bool) {
